@@ -502,16 +502,17 @@ Theorem proxy_unit_spellings : forall (vs : variants) P ms,
    exists b, lookup "continues" ms = Some (JBool b)) ->
   proxy_out true (SAdj "error" "parameters" vs) P (JObj ms) = POk RUnit.
 Proof.
-  intros vs P ms Hnd Hno Hp Hc. unfold proxy_out. rewrite classify_unfold.
+  intros vs P ms Hnd Hno Hp Hc. unfold proxy_out.
+  change (if true then no_output_shape else P) with no_output_shape. rewrite classify_unfold.
   unfold vs_error_shape, err_shape. rewrite !decoder_adj, !adj_no_tag by exact Hno.
   pose proof (reply_decoder_spec no_output_shape ms Hnd) as Hr.
   assert (Hb : has_memberb "error" ms = false).
   { destruct (has_memberb "error" ms) eqn:E; [| reflexivity]. apply has_memberb_iff in E. contradiction. }
-  rewrite Hb in Hr. unfold spec_opt_member, no_output_shape in Hr.
+  rewrite Hb in Hr. unfold spec_opt_member in Hr.
   assert (Hpar : exists p, match lookup "parameters" ms with
-                           | Some v => decoder (SOption (SStruct [])) Ref v
+                           | Some v => decoder (SOption no_output_shape) Ref v
                            | None => Some RNone end = Some p).
-  { destruct Hp as [-> | [-> | (x & ->)]]; try (eexists; reflexivity).
+  { unfold no_output_shape. destruct Hp as [-> | [-> | (x & ->)]]; try (eexists; reflexivity).
     rewrite decoder_option, decoder_struct. unfold struct_map, ftable. cbn [map].
     rewrite st_run_nil. cbn [st_finish option_map]. eexists; reflexivity. }
   destruct Hpar as (p & Hpar). rewrite Hpar in Hr.
@@ -520,7 +521,7 @@ Proof.
                            | None => Some RNone end = Some c).
   { destruct Hc as [-> | [-> | (b & ->)]]; eexists; reflexivity. }
   destruct Hcon as (c & Hcon). rewrite Hcon in Hr.
-  destruct (decoder (reply_shape (SStruct [])) Ref (JObj ms)) as [r |]; cbn [option_map] in Hr;
+  destruct (decoder (reply_shape no_output_shape) Ref (JObj ms)) as [r |]; cbn [option_map] in Hr;
     [| discriminate].
   inversion Hr as [Hv]. rewrite Hv. reflexivity.
 Qed.
